@@ -1,7 +1,7 @@
 (** C08 -- Exclusion decisions are invariant under re-encoding of the same tool path. *)
 From Coq Require Import Reals String List Bool.
 From ER Require Import Base.Num Model.Geometry Model.Axis Model.Filter Spec.Printer
-  Proofs.Transparent Proofs.Track Proofs.Reencode Proofs.Sync.
+  Proofs.Transparent Proofs.Track Proofs.Reencode Proofs.Sync Proofs.Depth.
 Import ListNotations.
 Open Scope R_scope.
 
@@ -37,7 +37,15 @@ Qed.
 (** the G92 X/Y/Z re-basing is outside these theorems' dialect ([wf_cmd]): finding D18 (refuted on the implementation
     by the oracle of this check, pinned by the test_setLogicalOffsetPosition tests) *)
 
+(** non-vacuity: the dialect predicates of the theorems above are met by a concrete program (print, retract, travel into
+    and out of the region area, recover, print) for any region set *)
+Theorem C08_premises_satisfiable : forall rs : list (region R),
+  wf_hist ex_cfg (mkSim (init_state rs) init_printer init_printer) ex_hist.
+Proof. intros rs. exact (proj1 (depth_premises_satisfiable rs)). Qed.
+
+
 Print Assumptions C08_decision_is_native.
 Print Assumptions C08_same_path_same_decision.
 Print Assumptions C08_translation.
 Print Assumptions C08_physical_position.
+Print Assumptions C08_premises_satisfiable.
